@@ -105,6 +105,23 @@ theorem twilight_monotone (a a' b b' lat dec dhuhr f f' i i' : ℝ)
   · rw [← hf, ← hf']; nlinarith
   · rw [← hi, ← hi']; nlinarith
 
+/-- **Imsaak ≤ Fajr**: Imsaak is Fajr at the angle Fajr + Imsaak (below), a non-negative Imsaak
+    angle is a larger depression, so it is never later -/
+theorem imsaak_le_fajr (a im b lat dec dhuhr f fi : ℝ)
+    (hk : 0 < Real.cos (toRadians lat) * Real.cos (toRadians dec))
+    (ha0 : -90 ≤ a) (him : 0 ≤ im) (ha1 : a + im ≤ 90)
+    (hf : (fajrIsha a b lat dec dhuhr).1 = some f) (hfi : (fajrIsha (a + im) b lat dec dhuhr).1 = some fi) :
+    fi ≤ f := by
+  have hc := hours_per_degree_pos
+  unfold fajrIsha at hf hfi
+  simp only at hf hfi
+  split at hf <;> [skip; simp at hf]
+  split at hfi <;> [skip; simp at hfi]
+  simp only [Option.some.injEq, sc_acos] at hf hfi
+  have m1 := twilightCos_antitone lat dec a (a + im) hk ha0 (by linarith) ha1
+  have e1 := toDegrees_le (Real.arccos_le_arccos m1)
+  rw [← hf, ← hfi]; nlinarith
+
 variable {α : Type} [Add α] [Sub α] [Mul α] [Div α] [Neg α] [OfScientific α] [Sc α]
 
 /-- **Imsaak is Fajr with the Imsaak angle added** (no Fajr/Imsaak interval): the parameter set
